@@ -29,10 +29,83 @@ theorem Maj_eq (x y z : UInt32) : Sha256.Maj x y z = Spec.Maj x y z := by
      simp only [BitVec.getElem_xor, BitVec.getElem_and, BitVec.getElem_or, BitVec.getElem_not]
      cases x.toBitVec[i] <;> cases y.toBitVec[i] <;> cases z.toBitVec[i] <;> rfl)
 
-theorem S0_eq (x : UInt32) : Sha256.S0 x = Spec.bigSigma0 x := rfl
-theorem S1_eq (x : UInt32) : Sha256.S1 x = Spec.bigSigma1 x := rfl
-theorem s0_eq (x : UInt32) : Sha256.s0 x = Spec.smallSigma0 x := rfl
-theorem s1_eq (x : UInt32) : Sha256.s1 x = Spec.smallSigma1 x := rfl
+/-- closes a Boolean equation whose atoms are bits `x.toBitVec.getLsbD k` of the word `x` -/
+macro "bool_bits" x:ident : tactic => `(tactic| (
+  try generalize ($x).toBitVec.getLsbD 0 = b0
+  try generalize ($x).toBitVec.getLsbD 1 = b1
+  try generalize ($x).toBitVec.getLsbD 2 = b2
+  try generalize ($x).toBitVec.getLsbD 3 = b3
+  try generalize ($x).toBitVec.getLsbD 4 = b4
+  try generalize ($x).toBitVec.getLsbD 5 = b5
+  try generalize ($x).toBitVec.getLsbD 6 = b6
+  try generalize ($x).toBitVec.getLsbD 7 = b7
+  try generalize ($x).toBitVec.getLsbD 8 = b8
+  try generalize ($x).toBitVec.getLsbD 9 = b9
+  try generalize ($x).toBitVec.getLsbD 10 = b10
+  try generalize ($x).toBitVec.getLsbD 11 = b11
+  try generalize ($x).toBitVec.getLsbD 12 = b12
+  try generalize ($x).toBitVec.getLsbD 13 = b13
+  try generalize ($x).toBitVec.getLsbD 14 = b14
+  try generalize ($x).toBitVec.getLsbD 15 = b15
+  try generalize ($x).toBitVec.getLsbD 16 = b16
+  try generalize ($x).toBitVec.getLsbD 17 = b17
+  try generalize ($x).toBitVec.getLsbD 18 = b18
+  try generalize ($x).toBitVec.getLsbD 19 = b19
+  try generalize ($x).toBitVec.getLsbD 20 = b20
+  try generalize ($x).toBitVec.getLsbD 21 = b21
+  try generalize ($x).toBitVec.getLsbD 22 = b22
+  try generalize ($x).toBitVec.getLsbD 23 = b23
+  try generalize ($x).toBitVec.getLsbD 24 = b24
+  try generalize ($x).toBitVec.getLsbD 25 = b25
+  try generalize ($x).toBitVec.getLsbD 26 = b26
+  try generalize ($x).toBitVec.getLsbD 27 = b27
+  try generalize ($x).toBitVec.getLsbD 28 = b28
+  try generalize ($x).toBitVec.getLsbD 29 = b29
+  try generalize ($x).toBitVec.getLsbD 30 = b30
+  try generalize ($x).toBitVec.getLsbD 31 = b31
+  decide +revert))
+
+theorem forall_lt_32 (P : Nat → Prop) (h0 : P 0) (h1 : P 1) (h2 : P 2) (h3 : P 3) (h4 : P 4) (h5 : P 5) (h6 : P 6) (h7 : P 7) (h8 : P 8) (h9 : P 9) (h10 : P 10) (h11 : P 11) (h12 : P 12) (h13 : P 13) (h14 : P 14) (h15 : P 15) (h16 : P 16) (h17 : P 17) (h18 : P 18) (h19 : P 19) (h20 : P 20) (h21 : P 21) (h22 : P 22) (h23 : P 23) (h24 : P 24) (h25 : P 25) (h26 : P 26) (h27 : P 27) (h28 : P 28) (h29 : P 29) (h30 : P 30) (h31 : P 31) :
+    ∀ i, i < 32 → P i := by
+  intro i hi
+  have hcases : i = 0 ∨ i = 1 ∨ i = 2 ∨ i = 3 ∨ i = 4 ∨ i = 5 ∨ i = 6 ∨ i = 7 ∨ i = 8 ∨ i = 9 ∨ i = 10 ∨ i = 11 ∨ i = 12 ∨ i = 13 ∨ i = 14 ∨ i = 15 ∨ i = 16 ∨ i = 17 ∨ i = 18 ∨ i = 19 ∨ i = 20 ∨ i = 21 ∨ i = 22 ∨ i = 23 ∨ i = 24 ∨ i = 25 ∨ i = 26 ∨ i = 27 ∨ i = 28 ∨ i = 29 ∨ i = 30 ∨ i = 31 := by omega
+  rcases hcases with rfl | rfl | rfl | rfl | rfl | rfl | rfl | rfl | rfl | rfl | rfl | rfl | rfl | rfl | rfl | rfl | rfl | rfl | rfl | rfl | rfl | rfl | rfl | rfl | rfl | rfl | rfl | rfl | rfl | rfl | rfl | rfl <;> assumption
+
+theorem word_ext (a b : UInt32) (h : ∀ i, i < 32 → a.toBitVec.getLsbD i = b.toBitVec.getLsbD i) : a = b :=
+  UInt32.eq_of_toBitVec_eq (BitVec.eq_of_getLsbD_eq h)
+
+/-- `f x = g x` for two words built from `x` by constant shifts/rotations, `^ | & ~`: bit by bit, for each of
+the 32 positions both sides reduce to a Boolean expression over single bits of `x` -/
+macro "word_bits" x:ident : tactic => `(tactic| (
+  try sha_macro_unfold
+  apply word_ext
+  apply forall_lt_32 <;>
+  simp [Spec.bigSigma0, Spec.bigSigma1, Spec.smallSigma0, Spec.smallSigma1, Spec.rotr, Spec.shr,
+    UInt32.toBitVec_xor, UInt32.toBitVec_or, UInt32.toBitVec_and, UInt32.toBitVec_not,
+    UInt32.toBitVec_shiftRight, UInt32.toBitVec_shiftLeft, BitVec.getLsbD_xor, BitVec.getLsbD_or, BitVec.getLsbD_and,
+    BitVec.getLsbD_not, BitVec.getLsbD_ushiftRight, BitVec.getLsbD_shiftLeft, -BitVec.getLsbD_eq_getElem] <;> bool_bits $x))
+
+/- `S0 S1 s0 s1`: `rfl` when the macros are written like the standard writes Σ₀ Σ₁ σ₀ σ₁ (as they are
+   today); otherwise bit by bit, so that any equivalent way of writing them (rotate left by 32-n, other
+   operand order, helper macros) is accepted and a wrong rotation count is not. -/
+theorem S0_eq (x : UInt32) : Sha256.S0 x = Spec.bigSigma0 x := by
+  first | rfl | word_bits x
+theorem S1_eq (x : UInt32) : Sha256.S1 x = Spec.bigSigma1 x := by
+  first | rfl | word_bits x
+theorem s0_eq (x : UInt32) : Sha256.s0 x = Spec.smallSigma0 x := by
+  first | rfl | word_bits x
+theorem s1_eq (x : UInt32) : Sha256.s1 x = Spec.smallSigma1 x := by
+  first | rfl | word_bits x
+
+/-- the bit-level tactic itself, exercised on every build on an equivalent but differently written Σ₀
+(rotate left, helper function, permuted operands) and σ₀ -/
+def rotlTest (x n : UInt32) : UInt32 := (x <<< n) ||| (x >>> (32 - n))
+theorem word_bits_selftest (x : UInt32) :
+    (rotlTest x 19 ^^^ (rotlTest x 10 ^^^ Sha256.rotrFixed x 2)) = Spec.bigSigma0 x ∧
+    ((x >>> 3) ^^^ rotlTest x 25 ^^^ rotlTest x 14) = Spec.smallSigma0 x := by
+  constructor
+  · simp only [rotlTest]; word_bits x
+  · simp only [rotlTest]; word_bits x
 
 /-! ### index arithmetic of the macros (`unsigned` wrap-around and masks), all `i < 16` -/
 
